@@ -76,6 +76,11 @@ func (l *LiquidOnChain) CreateOpeningTransaction(swapParams *swap.OpeningParams)
 	if err != nil {
 		return "", "", "", 0, 0, err
 	}
+	// The wallet decides where it puts the swap output (change may come first).
+	vout, err = l.VoutFromTxHex(txHex, redeemScript)
+	if err != nil {
+		return "", "", "", 0, 0, err
+	}
 	return txHex, blindedScriptAddr, txId, fee, vout, nil
 }
 
